@@ -241,6 +241,23 @@ func (w *World) probes(r *RunResult) {
 			if ex.CtxNoticedLate {
 				r.Probes["context_end_noticed_late_by_transport"]++
 			}
+			if ex.ConnClosedOnUpload {
+				r.Probes["h1_connection_closed_on_continued_upload"]++
+			}
+			if o.Plan.K.H1Close && !o.Plan.K.HTTP2 && ex.PostSeen() > 0 {
+				// the server was ready to close the connection; it does only on bytes
+				// written by a client that already had the answer
+				r.Probes["h1_upload_continued_after_handler_done"]++
+			}
+			if ex.UnchunkedNoTrailers {
+				r.Probes["h1_unchunked_response_lost_trailers"]++
+			}
+			if ex.UploadStopped() {
+				r.Probes["h2_upload_stopped_by_status"]++
+			}
+			if o.Plan.K.NoFlusher {
+				r.Probes["response_writer_without_flush"]++
+			}
 			if ex.PumpErrLate {
 				r.Probes["request_body_failed_response_ended"]++
 			}
